@@ -754,4 +754,91 @@ theorem angleParams_pos (a1 a2 a3 : String) (bo1 bo2 : Option Rat) (rules : List
     exact angleK_pos_acute _ _ _ _ _ g2.th_ge hlt (by linarith [B1.1]) (by linarith [B2.1]) f1.Z1_pos f3.Z1_pos
       (by linarith [B1.2, B2.1]) (by linarith [B1.1, B2.2])
 
+/-! ### bond and (obtuse-centre) angle positivity on the wide range 0 < BO ≤ 32 -/
+
+/-- bond length and force constant are positive for positive radii and charges, electronegativities in [2, 12] and
+    EVERY bond order in (0, 32]: the electronegativity correction is at most 0.5263 (ri + rj) and the bond-order
+    correction at most 0.1332 · 5 ln 2 · (ri + rj) < 0.4617 (ri + rj) -/
+theorem bondCore_pos_wide (ri zi xi rj zj xj b : ℝ) (hri : 0 < ri) (hrj : 0 < rj) (hzi : 0 < zi) (hzj : 0 < zj)
+    (hxi : 2 ≤ xi) (hxi' : xi ≤ 12) (hxj : 2 ≤ xj) (hxj' : xj ≤ 12) (hb : 0 < b) (hb2 : b ≤ 32) :
+    0 < (bondCore ri zi xi rj zj xj b).1 ∧ 0 < (bondCore ri zi xi rj zj xj b).2 := by
+  have hrij : 0 < (bondCore ri zi xi rj zj xj b).2 := by
+    unfold bondCore
+    simp only [sqrt_real, log_real, npow_real, dec_val]
+    have hD : 0 < xi * ri + xj * rj := by positivity
+    have hs := sq_sqrt_sub_le_const xi xj hxi hxi' hxj hxj'
+    have hsum : 0 < ri + rj := by linarith
+    have hrr : 0 < ri * rj := mul_pos hri hrj
+    have hlog : Real.log b ≤ 5 * Real.log 2 := by
+      have h32 : Real.log b ≤ Real.log 32 := Real.log_le_log hb hb2
+      have : Real.log 32 = 5 * Real.log 2 := by
+        rw [show (32 : ℝ) = 2 ^ 5 by norm_num, Real.log_pow]; norm_num
+      linarith
+    have hl2 := Real.log_two_lt_d9
+    have hEN : ri * rj * (Real.sqrt xi - Real.sqrt xj) ^ 2 / (xi * ri + xj * rj) ≤ (5263 / 10000) * (ri + rj) := by
+      rw [div_le_iff₀ hD]
+      have h1 : ri * rj * (Real.sqrt xi - Real.sqrt xj) ^ 2 ≤ ri * rj * (421 / 100) :=
+        mul_le_mul_of_nonneg_left hs hrr.le
+      have h2 : 2 * (ri + rj) ≤ xi * ri + xj * rj := by nlinarith
+      have h3 : 4 * (ri * rj) ≤ (ri + rj) * (ri + rj) := by nlinarith [sq_nonneg (ri - rj)]
+      nlinarith [mul_le_mul_of_nonneg_left h2 hsum.le]
+    have hBO : (1332 : ℝ) / 10 ^ 4 * (ri + rj) * Real.log b ≤ (4617 / 10000) * (ri + rj) := by
+      have : Real.log b ≤ 3.465735904 := by linarith
+      have h3 : (1332 : ℝ) / 10 ^ 4 * (ri + rj) * Real.log b ≤ (1332 : ℝ) / 10 ^ 4 * (ri + rj) * 3.465735904 :=
+        mul_le_mul_of_nonneg_left this (by positivity)
+      nlinarith
+    push_cast
+    nlinarith
+  refine ⟨?_, hrij⟩
+  have : (bondCore ri zi xi rj zj xj b).1 =
+      (66412 : ℝ) / 10 ^ 2 * zi * zj / ((bondCore ri zi xi rj zj xj b).2) ^ 3 / 2 := by
+    unfold bondCore
+    simp only [sqrt_real, log_real, npow_real, dec_val, int_val]
+    push_cast
+    ring
+  rw [this]
+  positivity
+
+/-- positivity of both bond parameters for two types of the table and a bond order in (0, 32] -/
+theorem bondParams_pos_wide (a1 a2 : String) (bo : Option Rat) (rules : List (List String × Rat))
+    (h1 : IsType a1) (h2 : IsType a2)
+    (hb : 0 < bondOrderOf a1 a2 bo rules) (hb2 : bondOrderOf a1 a2 bo rules ≤ 32) :
+    ∃ k r : ℝ, bondParams (α := ℝ) uff4mof a1 a2 bo rules = .ok (k, r) ∧ 0 < k ∧ 0 < r := by
+  obtain ⟨row1, h1⟩ := (isType_iff a1).mp h1
+  obtain ⟨row2, h2⟩ := (isType_iff a2).mp h2
+  have f1 := rowOkR_of_lookup a1 row1 h1
+  have f2 := rowOkR_of_lookup a2 row2 h2
+  have g1 := rowOk2R_of_lookup a1 row1 h1
+  have g2 := rowOk2R_of_lookup a2 row2 h2
+  rw [bondParams_real a1 a2 bo rules row1 row2 h1 h2, if_neg (not_le.mpr hb)]
+  have hbR : (0 : ℝ) < ((bondOrderOf a1 a2 bo rules : ℚ) : ℝ) := by exact_mod_cast hb
+  have hb2R : ((bondOrderOf a1 a2 bo rules : ℚ) : ℝ) ≤ 32 := by exact_mod_cast hb2
+  have := bondCore_pos_wide (colR row1 0) (colR row1 5) (colR row1 8) (colR row2 0) (colR row2 5) (colR row2 8) _
+    f1.r1_pos f2.r1_pos f1.Z1_pos f2.Z1_pos g1.Xi_ge g1.Xi_le g2.Xi_ge g2.Xi_le hbR hb2R
+  exact ⟨_, _, rfl, this.1, this.2⟩
+
+/-- `angle_params` on three types with bond orders in (0, 32]: defined, documented style, and a positive force
+    constant when the centre's θ0 ≥ 90° -/
+theorem angleParams_ok_wide (a1 a2 a3 : String) (bo1 bo2 : Option Rat) (rules : List (List String × Rat))
+    (row2 : List Dec) (h1 : IsType a1) (h2 : lookup uff4mof a2 = some row2) (h3 : IsType a3)
+    (hb1 : 0 < bondOrderOf a1 a2 bo1 rules ∧ bondOrderOf a1 a2 bo1 rules ≤ 32)
+    (hb2 : 0 < bondOrderOf a2 a3 bo2 rules ∧ bondOrderOf a2 a3 bo2 rules ≤ 32) :
+    ∃ res : AngleResult ℝ, angleParams (α := ℝ) uff4mof a1 a2 a3 bo1 bo2 rules = .ok res
+      ∧ res.style = angleStyle (colQ row2 1) a2
+      ∧ (90 ≤ colQ row2 1 → 0 < res.k) := by
+  obtain ⟨row1, h1'⟩ := (isType_iff a1).mp h1
+  obtain ⟨row3, h3'⟩ := (isType_iff a3).mp h3
+  have h2t : IsType a2 := (isType_iff a2).mpr ⟨row2, h2⟩
+  obtain ⟨k1, r1, e1, _, hr1⟩ := bondParams_pos_wide a1 a2 bo1 rules h1 h2t hb1.1 hb1.2
+  obtain ⟨k2, r2, e2, _, hr2⟩ := bondParams_pos_wide a2 a3 bo2 rules h2t h3 hb2.1 hb2.2
+  have f1 := rowOkR_of_lookup a1 row1 h1'
+  have f2 := rowOkR_of_lookup a2 row2 h2
+  have f3 := rowOkR_of_lookup a3 row3 h3'
+  rw [angleParams_real a1 a2 a3 bo1 bo2 rules row1 row2 row3 h1' h2 h3', e1, e2]
+  refine ⟨_, rfl, angleCore_style _ _ _ _ _ _, ?_⟩
+  intro h90
+  rw [angleCore_k]
+  have h90R : (90 : ℝ) ≤ colR row2 1 := by unfold colR; exact_mod_cast h90
+  exact angleK_pos _ _ _ _ _ h90R f2.th_le hr1 hr2 f1.Z1_pos f3.Z1_pos
+
 end Mofun.Uff
